@@ -102,7 +102,7 @@ func keytabFilterRule(w *World, c *Check, rule string) {
 		{"etype", "entry key type equals the requested etype", []GuardPat{EqPass("@3", ent+`\.Key\.KeyType`)}, false},
 		{"kvno", "entry kvno equals the requested kvno, unless kvno 0 (any) was requested", []GuardPat{EqPass("@2", ent+`\.KVNO`), EqPass("0", "@2")}, false},
 		{"newest", "entry is newer than the best match so far", []GuardPat{TruePass(`time\.\(Time\)\.After\(` + ent + `\.Timestamp, .*\)`)}, false},
-		{"components", "every component equals the requested one", []GuardPat{EqPass(P("@0.NameString[$i1]"), ent+`\.Principal\.Components\[\$i1\]`)}, true},
+		{"components", "every component equals the requested one", []GuardPat{EqPass(P("@0.NameString[", re(`\$i\d+`), "]"), ent+`\.Principal\.Components\[\$i\d+\]`)}, true},
 	}
 	for _, ev := range events {
 		hdr := loopHeaderOf(ev.Block())
